@@ -743,7 +743,7 @@ val obs_write : (nat wres * bytes) -> obs
 
 val mk_buf : (nat * n) -> bytes
 
-val obs_roundtrip : member -> kv list
+val obs_roundtrip : member -> n -> kv list
 
 val run_build : member -> (nat * n) list -> kv list
 
@@ -1013,3 +1013,43 @@ val spec_parse2 : entry -> bytes -> kv list
 val representable_full : member -> bool
 
 val spec_build2 : member -> kv list
+
+val last_of : (op -> 'a1 option) -> op list -> 'a1 -> 'a1
+
+val all_of : (op -> 'a1 option) -> op list -> 'a1 list
+
+val sel_pad : op -> n option
+
+val sel_ntp : op -> n option
+
+val sel_rtp : op -> n option
+
+val sel_pc : op -> n option
+
+val sel_oc : op -> n option
+
+val sel_rb : op -> rb_cfg option
+
+val sel_subtype : op -> n option
+
+val sel_data : op -> bytes option
+
+val sel_src : op -> n option
+
+val sel_reason : op -> bytes option
+
+val sel_chunk : op -> chunk_cfg option
+
+val sel_count : op -> n option
+
+val sel_sender : op -> n option
+
+val sel_media : op -> n option
+
+val final_rpsi : rpsi_op list -> fci_cfg
+
+val final_fci : fci_hist -> fci_cfg
+
+val final_member : hist_init -> op list -> member
+
+val final_config : hist -> member
